@@ -8,6 +8,7 @@ A6  shape of the ripple-carry adder (LSB first, x[i] / y[i] of one position, car
 A5  a negative literal factor must negate the operand before summing: -(x + .. + x) panics for products equal to the minimum value
 A4  the constant-multiplication rewrite splits the literal into magnitude and sign: every rewritten result is returned on one
     edge of a test of that sign (a fast path that looks at the magnitude only drops the sign)
+A7  cross-reference: the peephole rewrites through which every operator network is built keep the function (C04 O4 / O5 / O7 / O9 / O10)
 """
 from .. import mir
 from ..core import AnchorMissing, Finding, RuleResult
@@ -440,5 +441,23 @@ def rule_a6(ctx):
     return res
 
 
+def _xref(res, rule, other):
+    for x in other.findings:
+        res.bad(Finding(rule, x.fn, x.site, x.message, x.span))
+    return not other.findings
+
+
+def rule_a7(ctx):
+    """Cross-reference: the peephole rewrites of the gate builder keep the function (C04 O4, O5, O7, O9, O10) - every operator network is built through them."""
+    from . import C04
+    res = RuleResult("A7", "the gate builder's peephole rewrites keep the function of the requested gate (cross-reference to C04 O4 / O5 / O7 / O9 / O10)")
+    ok = True
+    for fn in (C04.rule_o4, C04.rule_o5, C04.rule_o7, C04.rule_o9, C04.rule_o10):
+        ok = _xref(res, "A7", fn(ctx)) and ok
+    if ok:
+        res.ok({"verdict": "C04 O4 / O5 / O7 / O9 / O10 hold"})
+    return res
+
+
 def run(ctx):
-    return ctx.run_rules([rule_a1, rule_a2, rule_a3, rule_a4, rule_a5, rule_a6])
+    return ctx.run_rules([rule_a1, rule_a2, rule_a3, rule_a4, rule_a5, rule_a6, rule_a7])
